@@ -414,3 +414,87 @@ Proof.
   - destruct r as [s' fr]. exists s', fr. split; [|exact Hk].
     rewrite Ec in Hr. exact Hr.
 Qed.
+
+(** ---- how the channels evolve: closed stays closed, identities only grow,
+    a wake-up channel is replaced only after it was closed ---- *)
+Definition chan_mono (s s' : pbl) : Prop :=
+  ch_next (heap s) <= ch_next (heap s') /\
+  (forall c, is_closed (heap s) c = true -> is_closed (heap s') c = true) /\
+  (get_put_wakeup s' = get_put_wakeup s \/ is_closed (heap s') (get_put_wakeup s) = true) /\
+  (get_release_wakeup s' = get_release_wakeup s \/ is_closed (heap s') (get_release_wakeup s) = true).
+
+Lemma chan_mono_same s s' :
+  heap s' = heap s -> putWakeup s' = putWakeup s -> releaseWakeup s' = releaseWakeup s -> chan_mono s s'.
+Proof.
+  intros H1 H2 H3. unfold chan_mono, get_put_wakeup, get_release_wakeup.
+  rewrite H1, H2, H3. splits; auto.
+Qed.
+
+Lemma nc_block_cases a h b : chan_wf h a b ->
+  ch_next h <= ch_next (snd (nc_block a h)) /\
+  (forall c, is_closed h c = true -> is_closed (snd (nc_block a h)) c = true) /\
+  (nc_chan (fst (nc_block a h)) = nc_chan a \/ is_closed (snd (nc_block a h)) (nc_chan a) = true).
+Proof.
+  intros W. unfold nc_block. destruct (nc_blocking a) eqn:E; cbn.
+  - splits; auto.
+  - splits; auto. right. unfold is_closed. cbn. fold (is_closed h (nc_chan a)).
+    pose proof (cw_a_blk _ _ _ W) as Hb. rewrite E in Hb.
+    destruct (is_closed h (nc_chan a)); [reflexivity|discriminate].
+Qed.
+
+Lemma notify_sync_completed_mono s : pbl_inv s -> chan_mono s (notify_sync_completed s).
+Proof.
+  intros I. unfold notify_sync_completed.
+  destruct (synchronizingEpochs s =? length (epochSeeds s)).
+  - pose proof (nc_block_cases _ _ _ (i_chan s I)) as [H1 [H2 H3]].
+    destruct (nc_block (putWakeup s) (heap s)) as [pw h1]. cbn in *.
+    unfold chan_mono, get_put_wakeup, get_release_wakeup. cbn. splits; auto.
+  - apply chan_mono_same; reflexivity.
+Qed.
+
+Lemma notify_state_written_mono s s' : pbl_inv s -> notify_state_written s = Ok s' -> chan_mono s s'.
+Proof.
+  intros I. unfold notify_state_written.
+  destruct (length (toRelease s) <? releasing s); [discriminate|].
+  destruct (skipn (releasing s) (toRelease s)).
+  - pose proof (nc_block_cases _ _ _ (chan_wf_sym _ _ _ (i_chan s I))) as [H1 [H2 H3]].
+    destruct (nc_block (releaseWakeup s) (heap s)) as [rw h1]. cbn in *.
+    intros H; inversion H; subst; clear H.
+    unfold chan_mono, get_put_wakeup, get_release_wakeup. cbn. splits; auto.
+  - intros H; inversion H; subst; clear H. apply chan_mono_same; reflexivity.
+Qed.
+
+Lemma pop_front_mono s s' : pbl_inv s -> pop_front s = Ok s' ->
+  chan_mono s s' /\ totalReleased s' + length (blocks s') = totalReleased s + length (blocks s)
+  /\ closedForWriting s' = closedForWriting s.
+Proof.
+  intros I. unfold pop_front. destruct (blocks s) as [|b rest]; [discriminate|].
+  destruct (wf_unblock_a _ _ _ (chan_wf_sym _ _ _ (i_chan s I))) as [rw [h1 [Hu [W [Hb [Hid [Hn Hmono]]]]]]].
+  rewrite Hu. cbn [obind].
+  destruct ((length (epochSeeds s) <? b_epochs b) || (length (epochLast s) <? b_epochs b)); [discriminate|].
+  match goal with |- context [if ?c then nc_block _ _ else _] => destruct c end.
+  - pose proof (nc_block_cases _ _ _ (chan_wf_sym _ _ _ W)) as [H1 [H2 H3]].
+    destruct (nc_block (putWakeup s) h1) as [pw h2]. cbn in *.
+    intros H; inversion H; subst; clear H. cbn. splits; auto; try lia.
+    unfold chan_mono, get_put_wakeup, get_release_wakeup. cbn. splits; auto; try lia.
+  - intros H; inversion H; subst; clear H. cbn. splits; auto; try lia.
+    unfold chan_mono, get_put_wakeup, get_release_wakeup. cbn. splits; auto; try lia.
+Qed.
+
+Lemma put_finalize_mono tok blk size seed s s' fr : pbl_inv s ->
+  put_finalize tok blk size seed s = Ok (s', fr) ->
+  chan_mono s s' /\ closedForWriting s' = closedForWriting s.
+Proof.
+  intros I. unfold put_finalize.
+  destruct tok as [|abs]; [intros H; inversion H; subst; split; [apply chan_mono_same|]; reflexivity|].
+  destruct blk as [off|]; [|intros H; inversion H; subst; split; [apply chan_mono_same|]; reflexivity].
+  destruct (closedForWriting s) eqn:Ec; [intros H; inversion H; subst; split; [apply chan_mono_same|]; auto|].
+  destruct (abs <? totalReleased s); [intros H; inversion H; subst; split; [apply chan_mono_same|]; auto|].
+  destruct (length (blocks s) <=? abs - totalReleased s); [discriminate|].
+  destruct (wf_unblock_a _ _ _ (i_chan s I)) as [pw [h1 [Hu [W [Hb [Hid [Hn Hmono]]]]]]].
+  match goal with |- obind ?b _ = _ -> _ => destruct b as [[|]|] end; cbn [obind].
+  - rewrite Hu. cbn [obind]. intros H; inversion H; subst; clear H. cbn. split; auto.
+    unfold chan_mono, get_put_wakeup, get_release_wakeup. cbn. splits; auto; try lia.
+  - intros H; inversion H; subst; clear H. cbn. split; auto. apply chan_mono_same; reflexivity.
+  - discriminate.
+Qed.
